@@ -7,26 +7,31 @@
   (`PtOK`; the code never normalises it — the statements hold for the POINT `p`, which is what the formulas compute).
   `u = 2^-53`.
 
-  PROVED here, for EVERY valid cell id (all faces, all levels) and every `PtOK` point:
+  PROVED here, for EVERY valid cell id (all faces, all levels) and every `PtOK` point, about the CURRENT code (with the
+  margin `edgeIsClosestMargin = 32·dblError` of repair D58 in `uEdgeIsClosest` / `vEdgeIsClosest`):
 
-  (1) LOWER BOUND `distance_lower_bound` : `Distance(p) ≤ |p − q|² + 2^-46` for every point `q` of the cell — no point of the
-      cell is closer than the reported minimum minus `128·u`.  All branches (edge, interior, vertex), float rounding AND
-      wrong float branch decisions included (`vertex_cover_robust`).
-  (2) UPPER BOUND `maxDistance_upper_bound` : `|p − q|² ≤ MaxDistance(p) + 2^-45 + 2·max(0,|p|²−1) + max(0,1−|p|²)`.
-  (3) ATTAINED `distance_attained_partial` : the reported value is within the error of the distance to a point of the
-      cell's boundary (interior branch: of the cell) — in the vertex branch unconditionally, in the edge / interior
-      branches PROVIDED the float tests of the branch taken agree with the exact quantities (`ExactOK`).
-      The proviso is necessary: `distance_attained_false` (finding: under-estimate by 6.8e-8 for a level-30 cell and a
-      target at the pole of an edge's great circle; reproduced against the Go code).
+  (1) LOWER BOUND `distance_lower_bound` : `Distance(p) ≤ |p − q|² + 2^-45` for every point `q` of the cell — no point of the
+      cell is closer than the reported minimum minus `253·u`.  All branches (edge, interior, vertex), float rounding AND
+      wrong float branch decisions included (`vertex_cover_robust` with `ε = m + 17u ≤ 49u`; it was `17u`, `2^-46`,
+      before the margin: a tangential "no" now tolerates exact values up to `m + 17u`).
+  (2) UPPER BOUND `maxDistance_upper_bound` : `|p − q|² ≤ MaxDistance(p) + 2^-44 + 2·max(0,|p|²−1) + max(0,1−|p|²)`.
+  (3) ATTAINED `distance_attained` : the reported value is within `2^-47 + (|p|−1)²` of the squared distance to a point of
+      the cell's boundary (interior branch: of the cell, value literal 0) — in ALL branches, NO proviso
+      (`distanceAttained_holds`).  Edge branches: a float "yes" of a tangential test with margin implies the exact
+      quantity is beyond `m − 17u ≥ 14u > 0` (`edge_tests_exact`); interior branch: clamp argument
+      (`inside_point_robust`); vertex branch: as before.
+      REGRESSION WITNESS `distance_attained_false_before_repair`: for the code BEFORE repair D58 (faithful model
+      `distanceOld`, `C12Dist/OldModel.lean`) the same claim is FALSE for every error up to 4e-8 (under-estimate by 6.8e-8
+      for a level-30 cell and a target at the pole of an edge's great circle; reproduced against the unrepaired Go code).
   (4) EXACT ARITHMETIC `exact_case_analysis` : evaluated on real numbers the case split of `distanceInternal` returns exactly
       the minimum over the cell, and it is attained (`distExact_correct`).
 
   Link to C08 (`WorldOK.cellLB`, `S2Proofs/EdgeQuery/SearchDefs.lean`): `CellLB` asks that the value `x` returned by
   `updateDistanceToCell` is not `less` than the true distance of anything below the cell.  For a point target `x = Distance(p)`,
-  and (1) gives exactly this with the slack `2^-46`: `cellLB_link` — `¬ (|p − q|² + 2^-46 < Distance(p))` for every point q of
+  and (1) gives exactly this with the slack `2^-45`: `cellLB_link` — `¬ (|p − q|² + 2^-45 < Distance(p))` for every point q of
   the cell.  With the EXACT comparison `less` the hypothesis is NOT provable for the real code: `Distance` does over-estimate by a
-  few ulps (observed: +8.9e-16 at d² ≈ 2), so `cellLB` holds for the order `less x y := x + 2^-46 < y`, i.e. for true distances
-  that are not within `2^-46` of the limit.
+  few ulps (observed: +8.9e-16 at d² ≈ 2), so `cellLB` holds for the order `less x y := x + 2^-45 < y`, i.e. for true distances
+  that are not within `2^-45` of the limit.
 -/
 import S2Proofs.C12Dist.Final
 import S2Proofs.C12Dist.EdgeErr
@@ -46,18 +51,18 @@ theorem robustCover : RobustCover 2 :=
   fun r hr hgu hgv t q hq ht ht' ε h0 hε oL oR oB oT a1 a0 b1 b0 c1 c0 d1 d0 hany =>
     vertex_cover_robust r hr hgu hgv t q hq ht ht' ε h0 hε oL oR oB oT a1 a0 b1 b0 c1 c0 d1 d0 hany
 
-/-- the error of the lower bound: `max (9u + 30u) (57u + 68u) = 125·u ≤ 2^-46` -/
-theorem lowErr_le : lowErr edgeErr 2 ≤ 1 / 2 ^ 46 := by
+/-- the error of the lower bound: `max (9u + 30u) (57u + 196u) = 253·u ≤ 2^-45` (`196 = 2·2·49`, `49u ≥ margin + 17u`) -/
+theorem lowErr_le : lowErr edgeErr 2 ≤ 1 / 2 ^ 45 := by
   have hu : uR = 1 / 2 ^ 53 := rfl
   unfold lowErr edgeErr vertErr
   rw [hu]
   apply max_le <;> norm_num
 
-theorem maxErr_le : lowErr edgeErr 2 + 2 * vertErr + 6 * uR ≤ 1 / 2 ^ 45 := by
+theorem maxErr_le : lowErr edgeErr 2 + 2 * vertErr + 6 * uR ≤ 1 / 2 ^ 44 := by
   have h := lowErr_le
   have hu : uR = 1 / 2 ^ 53 := rfl
-  have : 2 * vertErr + 6 * uR ≤ 1 / 2 ^ 46 := by unfold vertErr; rw [hu]; norm_num
-  have e : (1 : ℝ) / 2 ^ 46 + 1 / 2 ^ 46 = 1 / 2 ^ 45 := by norm_num
+  have : 2 * vertErr + 6 * uR ≤ 1 / 2 ^ 45 := by unfold vertErr; rw [hu]; norm_num
+  have e : (1 : ℝ) / 2 ^ 45 + 1 / 2 ^ 45 = 1 / 2 ^ 44 := by norm_num
   linarith
 
 theorem attErr_le : max (edgeErr + 27 * uR) vertErr ≤ 1 / 2 ^ 47 := by
@@ -69,11 +74,11 @@ theorem attErr_le : max (edgeErr + 27 * uR) vertErr ≤ 1 / 2 ^ 47 := by
 /-! ## (1) LOWER BOUND -/
 
 /-- **LOWER BOUND.**  For every valid cell id and every finite unit-ish point `p`: the reported `Distance(p)` is a finite
-    float, and no point `q` of the cell is closer to `p` than `Distance(p) − 2^-46` (squared chord length). -/
+    float, and no point `q` of the cell is closer to `p` than `Distance(p) − 2^-45` (squared chord length). -/
 theorem distance_lower_bound (id : CellID) (hv : isValid id = true) (p : V3) (hp : PtOK p) (q : R3)
     (hq : InCellXYZ (cellFromCellID id) q) :
     Fin (distance (cellFromCellID id) p) ∧
-    val (distance (cellFromCellID id) p) ≤ dist2 (ofV p) q + 1 / 2 ^ 46 := by
+    val (distance (cellFromCellID id) p) ≤ dist2 (ofV p) q + 1 / 2 ^ 45 := by
   obtain ⟨hf, h⟩ := distance_lower edgeSpec robustCover id hv p hp q hq
   exact ⟨hf, le_trans h (by have := lowErr_le; linarith)⟩
 
@@ -82,8 +87,8 @@ def DistanceLowerBoundReal (err : ℝ) : Prop :=
   ∀ (id : CellID) (p : V3), isValid id = true → PtOK p → ∀ q : R3, InCellXYZ (cellFromCellID id) q →
     Fin (distance (cellFromCellID id) p) ∧ val (distance (cellFromCellID id) p) ≤ dist2 (ofV p) q + err
 
-/-- … which HOLDS with `err = 2^-46` -/
-theorem distanceLowerBound_holds : DistanceLowerBoundReal (1 / 2 ^ 46) :=
+/-- … which HOLDS with `err = 2^-45` -/
+theorem distanceLowerBound_holds : DistanceLowerBoundReal (1 / 2 ^ 45) :=
   fun id p hv hp q hq => distance_lower_bound id hv p hp q hq
 
 /-- the clause of `DistanceLowerBound` in `Properties/C12.lean` ("the reported minimum is a number") for unit-ish points -/
@@ -93,10 +98,10 @@ theorem distance_not_nan (id : CellID) (hv : isValid id = true) (p : V3) (hp : P
   exact isNaN_false (distance_lower_bound id hv p hp q hq.1).1
 
 /-- **Link to C08 `WorldOK.cellLB`**: the value handed to the search as the cell's distance is never above the distance
-    of a point of the cell by more than `2^-46` — `CellLB` holds for the order `less x y := x + 2^-46 < y`. -/
+    of a point of the cell by more than `2^-45` — `CellLB` holds for the order `less x y := x + 2^-45 < y`. -/
 theorem cellLB_link (id : CellID) (hv : isValid id = true) (p : V3) (hp : PtOK p) (q : R3)
     (hq : InCellXYZ (cellFromCellID id) q) :
-    ¬ (dist2 (ofV p) q + 1 / 2 ^ 46 < val (distance (cellFromCellID id) p)) :=
+    ¬ (dist2 (ofV p) q + 1 / 2 ^ 45 < val (distance (cellFromCellID id) p)) :=
   not_lt.2 (distance_lower_bound id hv p hp q hq).2
 
 -- non-vacuity: a valid level-30 id, an admissible point, and the cell is not empty
@@ -106,16 +111,16 @@ example : isValid (0x151f46a85da62db5 : CellID) = true ∧ PtOK pX100 ∧
 
 /-! ## (2) UPPER BOUND of `MaxDistance` -/
 
-/-- **UPPER BOUND.**  No point of the cell is farther from `p` than `MaxDistance(p) + 2^-45`, up to the deviation of
+/-- **UPPER BOUND.**  No point of the cell is farther from `p` than `MaxDistance(p) + 2^-44`, up to the deviation of
     `|p|²` from 1 (`MaxDistance` uses `4 − Distance(−p)`, exact only for unit `p`). -/
 theorem maxDistance_upper_bound (id : CellID) (hv : isValid id = true) (p : V3) (hp : PtOK p) (q : R3)
     (hq : InCellXYZ (cellFromCellID id) q) :
     Fin (maxDistance (cellFromCellID id) p) ∧
-    dist2 (ofV p) q ≤ val (maxDistance (cellFromCellID id) p) + 1 / 2 ^ 45
+    dist2 (ofV p) q ≤ val (maxDistance (cellFromCellID id) p) + 1 / 2 ^ 44
       + 2 * max 0 ((ofV p).norm2 - 1) + max 0 (1 - (ofV p).norm2) := by
   have hlow : lowErr edgeErr 2 ≤ 1 / 2 := by
     have := lowErr_le
-    have : (1 : ℝ) / 2 ^ 46 ≤ 1 / 2 := by norm_num
+    have : (1 : ℝ) / 2 ^ 45 ≤ 1 / 2 := by norm_num
     linarith
   obtain ⟨hf, h⟩ := maxDistance_upper edgeSpec robustCover hlow id hv p hp q hq
   exact ⟨hf, by have := maxErr_le; linarith⟩
@@ -126,7 +131,7 @@ def MaxDistanceUpperBoundReal (err : ℝ) : Prop :=
     dist2 (ofV p) q ≤ val (maxDistance (cellFromCellID id) p) + err
       + 2 * max 0 ((ofV p).norm2 - 1) + max 0 (1 - (ofV p).norm2)
 
-theorem maxDistanceUpperBound_holds : MaxDistanceUpperBoundReal (1 / 2 ^ 45) :=
+theorem maxDistanceUpperBound_holds : MaxDistanceUpperBoundReal (1 / 2 ^ 44) :=
   fun id p hv hp q hq => maxDistance_upper_bound id hv p hp q hq
 
 theorem maxDistance_not_nan (id : CellID) (hv : isValid id = true) (p : V3) (hp : PtOK p) :
@@ -139,19 +144,18 @@ theorem maxDistance_not_nan (id : CellID) (hv : isValid id = true) (p : V3) (hp 
 theorem norm_uvw (f : Nat) (p : V3) : (ofV (faceXYZtoUVW f p)).norm = (ofV p).norm := by
   unfold R3.norm; rw [ofV_uvw, uvwR_norm2]
 
-/-- **ATTAINED (partial).**  If the float tests of the branch taken agree with the exact quantities (`ExactOK`), the
-    reported value is within `2^-47 + (|p| − 1)²` of the squared distance to a point of the cell, which lies on the
-    cell's boundary unless the value is the literal 0 of the interior case. -/
-theorem distance_attained_partial (id : CellID) (hv : isValid id = true) (p : V3) (hp : PtOK p)
-    (hex : ExactOK (cellFromCellID id) (faceXYZtoUVW (cellFromCellID id).face p)) :
+/-- **ATTAINED — all branches, no proviso (after repair D58).**  The reported value is within `2^-47 + (|p| − 1)²` of the
+    squared distance to a point of the cell, which lies on the cell's boundary unless the value is the literal 0 of the
+    interior case. -/
+theorem distance_attained (id : CellID) (hv : isValid id = true) (p : V3) (hp : PtOK p) :
     ∃ q : R3, InCellXYZ (cellFromCellID id) q ∧
       (OnBoundaryXYZ (cellFromCellID id) q ∨ distance (cellFromCellID id) p = fzero) ∧
       |val (distance (cellFromCellID id) p) - min 4 (dist2 (ofV p) q)| ≤ 1 / 2 ^ 47 + ((ofV p).norm - 1) ^ 2 := by
   obtain ⟨hf, hl, hn⟩ := hp
   have X := mkCtx id hv p (fin3_of_finite3 hf) hn
-  have hpos : 0 < (ofV (faceXYZtoUVW (cellFromCellID id).face p)).norm2 := by
-    rw [ofV_uvw, uvwR_norm2]; linarith
-  obtain ⟨q', h1, h2, h3⟩ := distUVW_attained edgeSpec X hpos hex
+  have hlow : 1 / 2 ≤ (ofV (faceXYZtoUVW (cellFromCellID id).face p)).norm2 := by
+    rw [ofV_uvw, uvwR_norm2]; exact hl
+  obtain ⟨q', h1, h2, h3⟩ := distUVW_attained edgeSpec X hlow
   obtain ⟨q, hq⟩ := uvwR_surj (cellFromCellID id).face q'
   rw [← distance_eq_distUVW] at h2 h3
   rw [norm_uvw, ofV_uvw, ← hq, uvwR_dist2] at h3
@@ -159,6 +163,15 @@ theorem distance_attained_partial (id : CellID) (hv : isValid id = true) (p : V3
   rcases h2 with h2 | h2
   · left; unfold OnBoundaryXYZ; rw [hq]; exact h2
   · right; exact h2
+
+/-- what the former proviso `ExactOK` (package c12dist) consisted of, and what became of it: its four EDGE clauses
+    (`EdgeTestsExact`: float edge condition true ⇒ the two exact tangential quantities have the right strict signs) are
+    now a THEOREM for every valid cell and admissible point; its INTERIOR clause (`InsideExact`: float `inside` ⇒ exact
+    inside) is not a theorem and is no longer needed (`distance_attained`). -/
+theorem edge_tests_exact_holds (id : CellID) (hv : isValid id = true) (p : V3) (hp : PtOK p) :
+    EdgeTestsExact (cellFromCellID id) (faceXYZtoUVW (cellFromCellID id).face p) := by
+  obtain ⟨hf, hl, hn⟩ := hp
+  exact edge_tests_exact (mkCtx id hv p (fin3_of_finite3 hf) hn)
 
 /-- **ATTAINED in the vertex branch, unconditionally**: when `distanceInternal` falls through to the four vertices
     (`distanceBranch = 5`) the reported value is within `57·u` of the squared distance to a boundary point. -/
@@ -199,19 +212,24 @@ theorem distance_attained_vertex (id : CellID) (hv : isValid id = true) (p : V3)
   rw [ofV_uvw, ← hq, uvwR_dist2] at h2
   exact ⟨q, by unfold OnBoundaryXYZ; rw [hq]; exact h1, h2⟩
 
--- non-vacuity of `distance_attained_partial`: an EDGE-branch instance (branch 0 = left edge) and an INTERIOR instance
--- of the proviso `ExactOK` on the level-30 cell `0x151f46a85da62db5`, with admissible points
+-- non-vacuity: an EDGE-branch instance (branch 0 = left edge), an INTERIOR instance (branch 4) and a VERTEX-branch
+-- instance (branch 5) of the hypotheses of `distance_attained` on the level-30 cell `0x151f46a85da62db5`
 example : isValid (0x151f46a85da62db5 : CellID) = true ∧ PtOK pE ∧ distanceBranch cX pE = 0 ∧
     ExactOK cX (faceXYZtoUVW cX.face pE) := ⟨by decide, witness_edge⟩
 example : PtOK pI ∧ distanceBranch cX pI = 4 ∧ ExactOK cX (faceXYZtoUVW cX.face pI) := witness_inside
--- non-vacuity of `distance_attained_vertex`: the point (−1,0,0) lands in the vertex branch
 example : PtOK pV ∧ distanceBranch cX pV = 5 := witness_vertex
 
-/-- the FULL attained claim (no proviso) as a proposition … -/
-def DistanceAttainedClaim (err : ℝ) : Prop :=
+/-- the FULL attained claim for an implementation `dist` of `Cell.Distance`, as a proposition … -/
+def DistanceAttainedClaim (dist : Cell → V3 → F64) (err : ℝ) : Prop :=
   ∀ (id : CellID) (p : V3), isValid id = true → PtOK p →
     ∃ q : R3, InCellXYZ (cellFromCellID id) q ∧
-      |val (distance (cellFromCellID id) p) - min 4 (dist2 (ofV p) q)| ≤ err
+      |val (dist (cellFromCellID id) p) - min 4 (dist2 (ofV p) q)| ≤ err + ((ofV p).norm - 1) ^ 2
+
+/-- … which HOLDS for the current code with `err = 2^-47` … -/
+theorem distanceAttained_holds : DistanceAttainedClaim distance (1 / 2 ^ 47) := by
+  intro id p hv hp
+  obtain ⟨q, h1, _, h3⟩ := distance_attained id hv p hp
+  exact ⟨q, h1, h3⟩
 
 theorem ptOK_pX : PtOK pX := by
   obtain ⟨X, hpos⟩ := counter_ctx
@@ -223,26 +241,60 @@ theorem ptOK_pX : PtOK pX := by
     exact this
   exact ⟨by decide, by linarith, hb⟩
 
-/-- … which is FALSE for the code as written, for every error up to `5e-8` (documented error: ≈ 1e-15): **finding**.
+/-- `(|pX| − 1)² ≤ 2^-42` -/
+theorem pX_norm_close : ((ofV pX).norm - 1) ^ 2 ≤ 1 / 2 ^ 42 := by
+  obtain ⟨_, _, hb⟩ := ptOK_pX
+  have h1 : 1 ≤ (ofV pX).norm2 := by
+    have := Counter.TX_norm2
+    rw [← Counter.T_eq, uvwR_norm2] at this
+    exact this
+  have hn := (ofV pX).norm_nonneg
+  have hs := (ofV pX).norm_sq
+  have lo : 1 ≤ (ofV pX).norm := by
+    by_contra hc
+    have hlt : (ofV pX).norm < 1 := not_le.1 hc
+    have : (ofV pX).norm ^ 2 < 1 := by nlinarith
+    linarith
+  have hi : (ofV pX).norm ≤ 1 + 1 / 2 ^ 21 := by
+    by_contra hc
+    have hlt : 1 + 1 / 2 ^ 21 < (ofV pX).norm := not_le.1 hc
+    have : (1 + 1 / 2 ^ 21 : ℝ) ^ 2 < (ofV pX).norm ^ 2 := by nlinarith
+    have : (1 : ℝ) + 1 / 2 ^ 21 ≤ (1 + 1 / 2 ^ 21) ^ 2 := by norm_num
+    linarith
+  have e : (1 : ℝ) / 2 ^ 42 = (1 / 2 ^ 21) ^ 2 := by norm_num
+  rw [e]
+  exact pow_le_pow_left₀ (by linarith) (by linarith) 2
+
+/-- … and was FALSE for the code BEFORE repair D58 (`distanceOld`: tangential tests without margin), for every error up
+    to `4e-8` (documented error: ≈ 1e-15): **defect D58, regression witness**.
     Cell `0x151f46a85da62db5` (level 30), `p = (3fe2a80a50dbc9f0, bfe9ffb2713669e0, be44895f347fad93)`:
-    `Distance = 1.999999965824041`, every point of the cell is at squared distance ≥ 2.00000003. -/
-theorem distance_attained_false : ¬ DistanceAttainedClaim (5 / 10 ^ 8) := by
+    old `Distance = 1.999999965824041`, every point of the cell is at squared distance ≥ 2.00000003. -/
+theorem distance_attained_false_before_repair : ¬ DistanceAttainedClaim distanceOld (4 / 10 ^ 8) := by
   intro h
   obtain ⟨q, hq, hab⟩ := h 0x151f46a85da62db5 pX (by decide) ptOK_pX
   have h1 := counter_truth q hq
   have h2 := counter_gap
+  have h3 := pX_norm_close
   have hm : (2 : ℝ) + 3 / 10 ^ 8 ≤ min 4 (dist2 (ofV pX) q) := le_min (by norm_num) h1
   have := (abs_le.1 hab).1
-  have e : distance (cellFromCellID 0x151f46a85da62db5) pX = distance cX pX := rfl
+  have e : distanceOld (cellFromCellID 0x151f46a85da62db5) pX = distanceOld cX pX := rfl
   rw [e] at this
+  have e42 : (1 : ℝ) / 2 ^ 42 ≤ 1 / 10 ^ 8 := by norm_num
   linarith
 
-/-- the model value on the counterexample is the value Go returns (`cellpt` replay: `3ffffffff6d3722c`) -/
-theorem distance_counter_value : distance (cellFromCellID 0x151f46a85da62db5) pX = ⟨0x3ffffffff6d3722c⟩ := counter_value
+/-- the old model's value on the counterexample is the value the unrepaired Go code returns (`cellpt` replay: `3ffffffff6d3722c`) -/
+theorem distance_counter_value_before_repair :
+    distanceOld (cellFromCellID 0x151f46a85da62db5) pX = ⟨0x3ffffffff6d3722c⟩ := counter_value
 
-/-- the counterexample violates exactly the proviso -/
-theorem distance_counter_not_exactOK :
-    ¬ ExactOK (cellFromCellID 0x151f46a85da62db5) (faceXYZtoUVW (cellFromCellID 0x151f46a85da62db5).face pX) :=
+/-- the current model's value on the same input is the value the repaired Go code returns (`40000000049646e9` =
+    2.0000000341759585, vertex branch; the exact distance is 2.000000034175959) -/
+theorem distance_counter_value_after_repair :
+    distance (cellFromCellID 0x151f46a85da62db5) pX = ⟨0x40000000049646e9⟩ ∧
+    distanceBranch (cellFromCellID 0x151f46a85da62db5) pX = 5 := counter_value_repaired
+
+/-- before the repair the counterexample violated exactly the edge clauses of the proviso -/
+theorem distance_counter_not_exactOK_before_repair :
+    ¬ EdgeTestsExactOld (cellFromCellID 0x151f46a85da62db5) (faceXYZtoUVW (cellFromCellID 0x151f46a85da62db5).face pX) :=
   counter_not_exactOK
 
 /-! ## (4) the case analysis in exact arithmetic -/
